@@ -31,11 +31,15 @@ PAIRS = [
     ('role:o', 'role:o and role:x'),
     ('role:n', 'role:o or role:x'),
     ('role:n', '!'),
+    # check strings whose tokens are separated by other white space than
+    # the ASCII blank (no-break space, ideographic space, line separator)
+    ('role:n\u00a0or\u00a0role:x', 'role:o\u3000and\u3000not\u2028role:x'),
+    ('not\u00a0role:x', 'role:o'),
 ]
-QUICK_PAIRS = [0, 1, 2, 3, 4, 9, 10, 13, 14, 15]
+QUICK_PAIRS = [0, 1, 2, 3, 4, 9, 10, 13, 14, 15, 16, 17]
 ROLES = ['n', 'o', 'x', 'vn', 'vo', 'n2', 'n3']
-OLD_OVERRIDES = ['absent', 'arbitrary', 'alias-first', 'alias-own',
-                 'alias-spaced',
+OLD_OVERRIDES = ['absent', 'arbitrary', 'arbitrary-nbsp', 'alias-first',
+                 'alias-own', 'alias-spaced',
                  # overrides that RESEMBLE the deprecated default without
                  # being textually equal to it: they govern like any other
                  'other-connective', 'opposite-constant', 'respelled']
@@ -101,6 +105,8 @@ def run_table(ctx, pair, nshare, renamed, keeper=False):
     old_text = None
     if old_ov == 'arbitrary':
         old_text = 'role:vo'
+    elif old_ov == 'arbitrary-nbsp':
+        old_text = 'role:vo\u00a0or\u2003role:x'
     elif old_ov == 'alias-first':
         old_text = 'rule:%s' % news[0]
     elif old_ov == 'alias-own':
